@@ -10,14 +10,26 @@ use std::time::Instant;
 
 extern "C" {
     fn sched_setaffinity(pid: i32, cpusetsize: usize, mask: *const u64) -> i32;
+    fn sysconf(name: i32) -> i64;
+}
+
+/// Number of online CPUs, independent of this process's current affinity mask
+/// (std::thread::available_parallelism shrinks to 1 once the process is pinned).
+pub fn online_cpus() -> usize {
+    const SC_NPROCESSORS_ONLN: i32 = 84;
+    let n = unsafe { sysconf(SC_NPROCESSORS_ONLN) };
+    if n >= 1 {
+        n as usize
+    } else {
+        1
+    }
 }
 
 /// Pin the whole process (all its future threads) to one CPU. Only one thread of
 /// a world ever runs, so one CPU per simulator process loses nothing, and a baton
 /// hand-off becomes an in-kernel context switch instead of an idle-vCPU wake-up.
 pub fn pin_to_cpu(cpu: usize) {
-    let n = std::thread::available_parallelism().map(|n| n.get()).unwrap_or(1);
-    let cpu = cpu % n.max(1);
+    let cpu = cpu % online_cpus().max(1);
     let mut mask = [0u64; 16];
     mask[cpu / 64] |= 1u64 << (cpu % 64);
     unsafe {
@@ -415,7 +427,7 @@ pub fn cmd_drive(args: &[String]) -> i32 {
     let (dw, db) = tier_defaults(&prop, &tier);
     let worlds = arg(args, "--worlds").and_then(|s| s.parse().ok()).or_else(|| std::env::var("VERIF_WORLDS").ok().and_then(|s| s.parse().ok())).unwrap_or(dw);
     let budget_ms = arg(args, "--budget-ms").and_then(|s| s.parse().ok()).or_else(|| std::env::var("VERIF_BUDGET_S").ok().and_then(|s| s.parse::<u64>().ok()).map(|s| s * 1000)).unwrap_or(db);
-    let ncpu = std::thread::available_parallelism().map(|n| n.get()).unwrap_or(1);
+    let ncpu = online_cpus();
     let nworkers = arg(args, "--workers").and_then(|s| s.parse().ok()).unwrap_or(ncpu.min(16));
     let root = out_root();
     let workdir = root.join("work").join(format!("{}-{}", prop, tier));
